@@ -381,7 +381,7 @@ theorem Inv.poll_going (hg : Good cfg strat0) {c : Cons} {s : Srv} {tr : List Ob
     cases w with
     | zero =>
       simp only [List.range'_zero, List.map_nil, ↓reduceIte] at hR
-      by_cases hsync : (cfg.autoCommitEnabled && !cfg.polling && decide ((c.stored.get? pid).getD 0 < a + n)) = true
+      by_cases hsync : (cfg.autoCommitEnabled && !cfg.polling && (decide ((c.stored.get? pid).getD 0 < a + n) || c.strat == .next)) = true
       · simp only [hsync, ↓reduceIte] at hR
         simp only [hR, onPolled_nil, List.append_nil]
         generalize (if (cfg.polling && decide (k + 1 > 0)) = true then
